@@ -1089,9 +1089,29 @@ pub fn c07(seed: u64, budget: u64) -> FOut {
                         hits.push(("C07:does-not-parse".into(), ctx("does not parse")));
                         continue;
                     };
-                    let src_ok = (hd.src == pre.identity && hd.src_incarnation as u128 == pre.incarnation)
+                    // the identity may be renewed (even more than once) inside one call: every
+                    // identity on the renewal chain from the one held before the call is "current"
+                    // at some point of the call
+                    let mut chain = vec![pre.identity];
+                    {
+                        use foca::Identity;
+                        let mut cur = pre.identity;
+                        for _ in 0..6 {
+                            match cur.renew() {
+                                Some(nx) if nx != cur => {
+                                    chain.push(nx);
+                                    cur = nx;
+                                }
+                                _ => break,
+                            }
+                        }
+                    }
+                    if let Input::ChangeIdentity(n) = input {
+                        chain.push(*n);
+                    }
+                    let src_ok = (hd.src == pre.identity && hd.src_incarnation as u128 >= pre.incarnation)
                         || (hd.src == post.identity && hd.src_incarnation as u128 <= post.incarnation)
-                        || (hd.src == pre.identity && hd.src_incarnation as u128 >= pre.incarnation);
+                        || (hd.src != pre.identity && hd.src != post.identity && chain.contains(&hd.src));
                     if !src_ok || hd.dst != *d {
                         hits.push(("C07:wrong-header".into(), ctx("header src/dst")));
                     }
@@ -1492,6 +1512,179 @@ pub fn c16(seed: u64, budget: u64) -> FOut {
     out
 }
 
+fn hdr_of(b: &[u8]) -> Option<foca::Header<VId>> {
+    dec_header(&mut &b[..]).ok()
+}
+fn mk_dgram(src: VId, inc: u16, dst: VId, m: foca::Message<VId>) -> Vec<u8> {
+    let mut b = header_bytes(&foca::Header { src, src_incarnation: inc, dst, message: m.clone() });
+    if !matches!(m, foca::Message::Announce | foca::Message::TurnUndead | foca::Message::Broadcast) {
+        b.extend([0u8, 0]);
+    }
+    b
+}
+
+/// C12: probe evidence and indirect routing
+pub fn c12(seed: u64, budget: u64) -> FOut {
+    use foca::Message as Mg;
+    let mut out = FOut::default();
+    out.rule = "real instance A with n = 2..6 members and fan-out 1..3: one probe round is driven by its own timers; an Ack or ForwardedAck is injected from {target, asked helper, unasked member, unknown} x probe number {previous, current, next} x arrival {before the indirect stage, after it, after the next round started} (exhaustive per layout, random layouts/seeds); expected: the next round raises no suspicion iff the evidence is genuine (Ack: target+current+in time; ForwardedAck: asked helper+current+after the indirect stage+in time), otherwise the target becomes Suspect and exactly one suspicion timeout is scheduled; PingReq only when no valid Ack came before probe_rtt, to <= num_indirect_probes distinct active members other than the target; then a full four-instance relay chain A->C->B->C->A must preserve origin/target/number and complete the probe. distinct = table rows".into();
+    let mut g = G::new(seed ^ 0xC12);
+    for run in 0..budget {
+        let n = 2 + g.below(5) as u16;
+        let fan = 1 + g.below(3) as u128;
+        let a_id = VId::new(50, 1, 0, 0);
+        let mut cfg = big_cfg();
+        cfg.num_indirect_probes = fan;
+        let members: Vec<MMember> = (1..=n).map(|i| MMember { id: VId::new(i, 0, 0, 0), inc: g.below(3) as u16, state: 0 }).collect();
+        let rseed = g.next();
+        for kind_fwd in [false, true] {
+            for who in 0..4u8 {
+                // 0 target, 1 asked helper, 2 unasked member, 3 unknown
+                for num in [-1i32, 0, 1] {
+                    for when in 0..3u8 {
+                        let mut a = Inst::new(a_id, &cfg, rseed, 0, 255);
+                        run_real(&mut a.foca, &Input::ApplyMany(members.clone(), false));
+                        let s0 = a.snapshot();
+                        // round start
+                        let (e1, _) = run_real(&mut a.foca, &Input::Timer(MTimer::Probe(s0.token)));
+                        let ping = e1.iter().find_map(|e| if let Eff::Send(d, b) = e { hdr_of(b).and_then(|h| if let Mg::Ping(k) = h.message { Some((*d, k)) } else { None }) } else { None });
+                        let Some((target, pn)) = ping else {
+                            out.hit("C12:no-ping", J::s(format!("{e1:?}")));
+                            continue;
+                        };
+                        let ind_timer = e1.iter().find_map(|e| if let Eff::Submit(t @ MTimer::Indirect(..), _) = e { Some(t.clone()) } else { None });
+                        let number = (pn as i32 + num).rem_euclid(256) as u8;
+                        let mut asked: Vec<VId> = vec![];
+                        let mut pingreq_count = 0usize;
+                        let inject = |a: &mut Inst, asked: &Vec<VId>| -> Option<(VId, bool)> {
+                            // returns (sender, is it an asked helper at injection time)
+                            let sender = match who {
+                                0 => target,
+                                1 => {
+                                    if let Some(h) = asked.first() { *h } else { members.iter().map(|m| m.id).find(|i| *i != target)? }
+                                }
+                                2 => members.iter().map(|m| m.id).find(|i| *i != target && !asked.contains(i))?,
+                                _ => VId::new(77, 0, 0, 0),
+                            };
+                            let m = if kind_fwd { Mg::ForwardedAck { origin: target, probe_number: number } } else { Mg::Ack(number) };
+                            let inc = members.iter().find(|m| m.id == sender).map(|m| m.inc).unwrap_or(0);
+                            let d = mk_dgram(sender, inc, a_id, m);
+                            let was_asked = asked.contains(&sender);
+                            run_real(&mut a.foca, &Input::Data(d));
+                            Some((sender, was_asked))
+                        };
+                        let mut injected: Option<(VId, bool)> = None;
+                        if when == 0 {
+                            injected = inject(&mut a, &asked);
+                        }
+                        // indirect stage
+                        if let Some(t) = ind_timer {
+                            let known_now: Vec<VId> = a.snapshot().members.iter().filter(|m| m.active()).map(|m| m.id).collect();
+                            let (e2, _) = run_real(&mut a.foca, &Input::Timer(t));
+                            for e in &e2 {
+                                if let Eff::Send(d, b) = e {
+                                    if let Some(h) = hdr_of(b) {
+                                        if let Mg::PingReq { target: t2, probe_number } = h.message {
+                                            pingreq_count += 1;
+                                            if t2 != target || probe_number != pn || *d == target || asked.contains(d) || !known_now.contains(d) {
+                                                out.hit("C12:bad-pingreq", J::s(format!("to {d:?}: {h:?}; target {target:?}")));
+                                            }
+                                            asked.push(*d);
+                                        }
+                                    }
+                                }
+                            }
+                        }
+                        if asked.len() as u128 > fan {
+                            out.hit("C12:too-many-pingreq", J::s(format!("{asked:?} fan-out {fan}")));
+                        }
+                        let valid_before = when == 0 && !kind_fwd && who == 0 && num == 0;
+                        if valid_before && pingreq_count > 0 {
+                            out.hit("C12:pingreq-despite-ack", J::s(format!("{asked:?}")));
+                        }
+                        if !valid_before && n > 1 && pingreq_count == 0 && members.len() > 1 {
+                            out.hit("C12:no-pingreq-without-ack", J::s(format!("n={n} fan={fan} when={when} who={who} num={num} fwd={kind_fwd}")));
+                        }
+                        if when == 1 {
+                            injected = inject(&mut a, &asked);
+                        }
+                        // next round
+                        let s1 = a.snapshot();
+                        let (e3, o3) = run_real(&mut a.foca, &Input::Timer(MTimer::Probe(s1.token)));
+                        if when == 2 {
+                            injected = inject(&mut a, &asked);
+                        }
+                        let s2 = a.snapshot();
+                        let timeouts = e3.iter().filter(|e| matches!(e, Eff::Submit(MTimer::SuspectToDown(i, _, _), _) if *i == target)).count();
+                        let rec = s2.members.iter().find(|m| m.id == target).cloned();
+                        let suspected = rec.map(|m| m.state == 1).unwrap_or(false);
+                        let genuine = match injected {
+                            Some((_snd, was_asked)) if when < 2 && num == 0 => {
+                                if kind_fwd { who == 1 && was_asked && when == 1 } else { who == 0 }
+                            }
+                            _ => false,
+                        };
+                        out.runs += 1;
+                        out.distinct.insert(hash_of(&(n, fan, kind_fwd, who, num, when)));
+                        let row = format!("n={n} fan={fan} fwd={kind_fwd} who={who} num={num} when={when} target={target:?} asked={asked:?} result={o3:?}");
+                        if genuine && (suspected || timeouts > 0) {
+                            out.hit("C12:suspicion-despite-evidence", J::s(row.clone()));
+                        }
+                        if !genuine && !(suspected && timeouts == 1) && injected.is_some() {
+                            out.hit("C12:no-suspicion-without-evidence", J::s(format!("{row} suspected={suspected} timeouts={timeouts}")));
+                        }
+                        if out.samples.len() < 2 {
+                            out.samples.push(J::s(row));
+                        }
+                    }
+                }
+            }
+        }
+        // relay chain with four real instances
+        let b_id = VId::new(1, 0, 0, 0);
+        let c_id = VId::new(2, 0, 0, 0);
+        let mut a = Inst::new(a_id, &cfg, rseed ^ 1, 0, 255);
+        let mut b = Inst::new(b_id, &cfg, rseed ^ 2, 0, 255);
+        let mut c = Inst::new(c_id, &cfg, rseed ^ 3, 0, 255);
+        let all = |me: VId| -> Vec<MMember> { [a_id, b_id, c_id].iter().filter(|i| **i != me).map(|i| MMember { id: *i, inc: 0, state: 0 }).collect() };
+        run_real(&mut a.foca, &Input::ApplyMany(all(a_id), false));
+        run_real(&mut b.foca, &Input::ApplyMany(all(b_id), false));
+        run_real(&mut c.foca, &Input::ApplyMany(all(c_id), false));
+        let pn = 9u8;
+        let first = |effs: &Vec<Eff>| effs.iter().find_map(|e| if let Eff::Send(d, bb) = e { Some((*d, bb.clone())) } else { None });
+        let req = mk_dgram(a_id, 0, c_id, Mg::PingReq { target: b_id, probe_number: pn });
+        let (ec, _) = run_real(&mut c.foca, &Input::Data(req));
+        let ok = (|| {
+            let (d1, b1) = first(&ec)?;
+            let h1 = hdr_of(&b1)?;
+            if d1 != b_id || h1.message != (Mg::IndirectPing { origin: a_id, probe_number: pn }) { return None; }
+            let (eb, _) = run_real(&mut b.foca, &Input::Data(b1));
+            let (d2, b2) = first(&eb)?;
+            let h2 = hdr_of(&b2)?;
+            if d2 != c_id || h2.message != (Mg::IndirectAck { target: a_id, probe_number: pn }) { return None; }
+            let (ec2, _) = run_real(&mut c.foca, &Input::Data(b2));
+            let (d3, b3) = first(&ec2)?;
+            let h3 = hdr_of(&b3)?;
+            if d3 != a_id || h3.message != (Mg::ForwardedAck { origin: b_id, probe_number: pn }) { return None; }
+            let (_ea, oa) = run_real(&mut a.foca, &Input::Data(b3));
+            if oa != Outcome::Done { return None; }
+            Some(())
+        })();
+        if ok.is_none() {
+            out.hit("C12:relay-chain-broken", J::s(format!("seed {rseed}")));
+        }
+        // requests naming the instance itself
+        for m in [Mg::PingReq { target: c_id, probe_number: 1 }, Mg::IndirectPing { origin: c_id, probe_number: 1 }, Mg::IndirectAck { target: c_id, probe_number: 1 }, Mg::ForwardedAck { origin: c_id, probe_number: 1 }] {
+            let (e, o) = run_real(&mut c.foca, &Input::Data(mk_dgram(a_id, 0, c_id, m.clone())));
+            if o != Outcome::Failed(6) || e.iter().any(|x| matches!(x, Eff::Send(..))) {
+                out.hit("C12:indirect-for-ourselves-not-rejected", J::s(format!("{m:?} -> {o:?} {e:?}")));
+            }
+        }
+        let _ = run;
+    }
+    out
+}
+
 pub fn run(prop: &str, seed: u64, budget: u64) -> Option<FOut> {
     match prop {
         "C01" => Some(c01(seed, budget)),
@@ -1502,6 +1695,7 @@ pub fn run(prop: &str, seed: u64, budget: u64) -> Option<FOut> {
         "C14" => Some(c14(seed, budget)),
         "C07" => Some(c07(seed, budget)),
         "C15" => Some(c15(seed, budget)),
+        "C12" => Some(c12(seed, budget)),
         "C16" => Some(c16(seed, budget)),
         "C13" => Some(c13(seed, budget)),
         "C17" => Some(c17(seed, budget)),
